@@ -165,6 +165,15 @@ PROPS = {
         "rule": "random op sequences (store/remove/retrieve/retrieve-if-loaded/cache-bypassing retrieve/both commits with fault plans/drop deltas/drop cache/preload/re-create/external corruption) over 4-15 identifiers incl. a temporary-address one; PLUS bounded-exhaustive: every sequence of length 4 (thorough: 5) over a 22-operation alphabet on two identifiers (one owned, one temporary), two versions, both commits with and without a fault; distinct = distinct op-kind strings / sequences",
         "explanation": "Theorems: storage state machine refines the write-back overlay spec for every op sequence (inv_reachable, step_refines, ...). Tie: model replayed against PersistentSlabStorage on every trace line (observations, ledger call logs, where each id is served from, counters). Oracle: Go-map overlay.",
     },
+    "C13": {
+        "streams": ["iter", "array", "mapcollide"], "driver": {"iter": "iter", "array": "array", "mapcollide": "map"}, "level": "proof",
+        "trusted_base": LEAN_TB, "assumptions": ARRAY_ASSUME + MAP_ASSUME + [
+            "loaded-value iterators are parameterised by a predicate 'slab is loaded'; the harness reads the real loaded set from the storage's write set and cache (verif hooks)",
+            "map_ro_iter_eq_toList needs the sibling-link / slab-ID consistency predicate leafIdsOk (evaluated by the replayer on every iterated tree); map overwrite-during-iteration is proved relative to the in-place effect of Set on an existing key (hypothesis OverwriteInPlace)",
+            "mutating a NESTED container during mutable iteration is exercised by the stream's oracle and by C10's stream, not by a theorem"],
+        "rule": "48 container programs per seed (arrays at T in {256,300,512,1024}, maps with real digests and four collision-table modes: inline groups, external groups, last-level lists spanning slab boundaries); per round: commit, 8 loaded subsets on fresh storages (nothing, everything, random, all-but-a-few, get paths, prefixes, the live handle), every iterator flavour on fresh and live handles with valid and invalid ranges, overwrite during mutable iteration, bulk pop; distinct = programs x rounds",
+        "explanation": "Theorems: array read-only/mutable iteration = toList, range iteration = slice, invalid ranges rejected with the exact error kinds, loaded iteration with all slabs loaded = toList and with ANY loaded set a Sublist (for any tree), the Go iterator object = the structural traversal, pop = reverse, overwrite of the current element neither skips nor repeats; maps: getElementAndNextKey returns pair and successor, mutable / read-only / keys / values / loaded iterations = toList (canonical digest order), loaded subset is a Sublist, pop = reverse. Oracle: pairwise agreement of all flavours and with Get, exactly-once, digest order, in-order subsequence when partially loaded.",
+    },
     "C14": {
         "streams": ["storage"], "driver": {"storage": "storage"}, "level": "proof",
         "trusted_base": LEAN_TB, "assumptions": STORAGE_ASSUME,
